@@ -18,10 +18,16 @@
    order  : odd = the returned profiler (remaining events) is dropped before the Sim; bit 1 (order/2 odd): the runner
             drops everything BY UNWINDING (a panic while the Sim / runtime / result is alive).  The model does not
             read that bit: the same handles are released either way (Main.drop_path_irrelevant)
-   hold   : odd = the caller keeps its GateRefs / ModuleRefs until everything else is dropped
+   hold   : odd = the caller keeps its GateRefs / ModuleRefs until everything else is dropped; bit 1 (hold/2 odd): the
+            reference counts printed at the stopping point include the classes that need the hook
+            fixes/hook_own_counts.diff (module context, processor, runtime, timer queue and slots, module tree)
 
    Output: the record
-     ok res nrem time  created(proc elem task msg)  once(proc elem task msg)  notonce alive  nlog log*
+     ok res nrem time  created(proc elem task msg)  once(proc elem task msg)  notonce alive  nlog log*  ncnt cnt*
+   cnt* = (strong, weak) reference counts at the stopping point, before anything is dropped (none when run()
+   returned an error: everything is gone then): Globals; [hooked: module tree; per module: context, processor,
+   runtime (twice: Arc<Runtime>, Rc<LocalSet>; one number each), timer queue, n, n pending slots]; every gate of
+   every module; every channel in creation order
    twice (the second simulation in the same process must behave like the first), then one number:
    1 iff any object at all is still allocated after the drop
    No proofs in this file. *)
@@ -222,10 +228,11 @@ Definition EVENT_FUEL : nat := 4000.
 (* the simulation at its stopping point, and the handles that are then dropped, in drop order:
    the Sim (module tree, globals, the guard's event buffer), the events (with the runtime, or as
    the profiler's `remaining`), the caller's own references *)
-Definition stop_world (pin : bool) (input : list N) : world * list nat * (N * N * N) :=
+Definition stop_world (pin : bool) (input : list N) : world * list nat * (N * N * N * bool) :=
   let stop := hd0 input mod 6 in let l := tl0 input in
   let arg := hd0 l in let l := tl0 l in
   let order := N.odd (hd0 l) in let l := tl0 l in
+  let hooked := N.odd (hd0 l / 2) in
   let hold := N.odd (hd0 l) in let l := tl0 l in
   let nmod := N.min (hd0 l) 6 in let l := tl0 l in
   let '(cfgs, l) := dec_n (N.to_nat nmod) dec_mod l in
@@ -253,18 +260,41 @@ Definition stop_world (pin : bool) (input : list N) : world * list nat * (N * N 
   let time : N := if (res =? 2) || (stop =? 0) then 0 else w_clock w in
   let sim_roots := [w_tree w; w_glob w] ++ map fst (w_buf w) in
   let want := (if (res =? 1) && order then pending ++ sim_roots else sim_roots ++ pending) ++ w_held w in
-  (w, want, (res, nrem, time)).
+  (w, want, (res, nrem, time, hooked)).
 
 (* the heap at the stopping point and the handles held then -- every handle the primitives have
    handed out and not taken back -- in the order in which the real program drops them *)
 Definition list_eqb (a b : list nat) : bool := if list_eq_dec Nat.eq_dec a b then true else false.
 
-(* the last component: do the handles handed out by the primitives coincide with what the
+(* ---- reference counts at the stopping point ---- *)
+(* Weak handles to [x]: weak fields of live objects, plus [ext] held from outside the heap *)
+Definition weak_in (h : heap) (x : nat) : N :=
+  N.of_nat (length (filter (Nat.eqb x) (flat_map (fun ob => if live ob then map snd (weak ob) else []) h))).
+Definition strong_of (h : heap) (x : nat) : N := match nth_error h x with Some ob => N.of_nat (rc ob) | None => 0 end.
+Definition sw (h : heap) (x : nat) (ext : N) : list N :=
+  if is_live h x then [strong_of h x; weak_in h x + ext] else [0; 0].
+
+Definition counts (w : world) (hooked : bool) : list N :=
+  let h := whp w in
+  sw h (w_glob w) 1                                     (* BufferContext.globals: Weak<Globals> (runtime/ctx.rs:20) *)
+  ++ (if hooked then
+        sw h (w_tree w) 0
+        ++ flat_map (fun m =>
+             sw h (m_ctx m) 0 ++ sw h (m_proc m) 0
+             ++ match m_rt m with Some r => [strong_of h r; strong_of h r] | None => [0; 0] end
+             ++ sw h (m_queue m) 0 ++ [N.of_nat (length (m_slots m))]
+             ++ flat_map (fun p => sw h (snd (fst p)) 0) (m_slots m)) (w_mods w)
+      else [])
+  ++ flat_map (fun m => flat_map (fun g => sw h g 0) (m_gates m)) (w_mods w)
+  ++ flat_map (fun c => sw h (ch_id c) 0) (w_chans w).
+
+(* the last components: do the handles handed out by the primitives coincide with what the
    simulation's own containers (Sim, event buffer, event set, caller) say is held -- i.e. no
-   primitive ever refused a move *)
-Definition stop_state (pin : bool) (input : list N) : st * list nat * (N * N * N * list N * bool) :=
-  let '(w, want, info) := stop_world pin input in
-  (r_st (w_st w), reorder (r_roots (w_st w)) want, (info, w_log w, list_eqb (reorder (r_roots (w_st w)) want) want)).
+   primitive ever refused a move; the reference counts *)
+Definition stop_state (pin : bool) (input : list N) : st * list nat * (N * N * N * list N * bool * list N) :=
+  let '(w, want, (res, nrem, time, hooked)) := stop_world pin input in
+  (r_st (w_st w), reorder (r_roots (w_st w)) want,
+   (res, nrem, time, w_log w, list_eqb (reorder (r_roots (w_st w)) want) want, if res =? 2 then [] else counts w hooked)).
 
 Definition alive_users (h : heap) : N := N.of_nat (length (filter (fun ob => user_tag (otag ob) && live ob) h)).
 
@@ -278,10 +308,11 @@ Definition verdict (s' : st) : list N * list N * N * N * N :=
   (created, once, notonce, alive_users h', b2n (existsb live h')).
 
 Definition run_gen (pin : bool) (input : list N) : list N :=
-  let '(s, roots, (res, nrem, time, lg, agree)) := stop_state pin input in
+  let '(s, roots, (res, nrem, time, lg, agree, cnts)) := stop_state pin input in
   let ok := goodb pin s roots && agree in
   let '(created, once, notonce, alive, grew) := verdict (release_all s roots) in
-  let rec := [b2n ok; res; nrem; time] ++ created ++ once ++ [notonce; alive; N.of_nat (length lg / 4)] ++ lg in
+  let rec := [b2n ok; res; nrem; time] ++ created ++ once ++ [notonce; alive; N.of_nat (length lg / 4)] ++ lg
+             ++ [N.of_nat (length cnts)] ++ cnts in
   (* the last number: is anything at all still allocated (the implementation: did the live heap
      grow between two further executions of the same simulation) *)
   rec ++ rec ++ [grew].
